@@ -58,7 +58,7 @@ def handleTidy : List String → Option String
     match Grammar.parsePat f.extmatch pat with
     | none => pure "none"
     | some g =>
-      if !g.c01Scope then pure "oos" else
+      if !g.c01Scope || !g.noSlash then pure "oos" else
       match parsePattern flags false pat with
       | .error _ => pure "err ValueError"
       | .ok parsed =>
